@@ -355,7 +355,7 @@ def emit_fn(out, item, relfile, container, contracts, in_trait_decl=False, inden
             if body is not None:
                 sig, body = apply_rewrites(qual, sig, body, contract, out.log)
             sig = name_return(sig, contract.ret, out.log, qual)
-            if body is not None and contract.mode != 'assume':
+            if body is not None and contract.mode not in ('assume', 'bounded'):
                 body = apply_hints(qual, body, contract, out.log)
                 chunks = insert_loop_contracts(qual, body, contract, out)
         except LostAnchor as e:
@@ -377,9 +377,9 @@ def emit_fn(out, item, relfile, container, contracts, in_trait_decl=False, inden
         body = ' unimplemented!() ' if body is not None else None
         chunks = None
     mode = 'unreachable' if fallback_reason is not None else contract.mode
-    if mode in ('assume', 'unreachable'):
+    if mode in ('assume', 'bounded', 'unreachable'):
         out.emit(indent + '#[verifier::external_body]')
-        if mode == 'assume':
+        if mode in ('assume', 'bounded'):
             out.log.append({'rule': 'X7', 'fn': qual, 'what': 'body kept but marked external_body: contract ASSUMED'})
     out.emit(indent + sig)
     emit_clauses(out, qual, contract.clauses, indent + '    ')
